@@ -48,6 +48,7 @@ class Run:
         self.cov = {}
         self.assumptions = []
         self.mc = {"states": 0, "transitions": 0, "runs": []}
+        self.timing = {}
 
     def path(self, name):
         return os.path.join(self.dir, name)
@@ -79,7 +80,9 @@ def build_harness():
 
 def drive(run, driver, args, timeout=1800, check=True):
     cmd = [BIN, driver] + [str(a) for a in args]
+    t = time.time()
     p = subprocess.run(cmd, stdout=subprocess.PIPE, stderr=subprocess.PIPE, text=True, timeout=timeout)
+    run.timing["drive"] = round(run.timing.get("drive", 0) + time.time() - t, 1)
     if check and p.returncode != 0:
         sys.stdout.write(p.stdout[-3000:] + p.stderr[-3000:])
         raise ToolError("driver %s failed with status %d" % (driver, p.returncode))
@@ -124,10 +127,12 @@ def tlc_trace(run, module, base_cfg, trace, overrides=None, tag="tv", timeout=18
     meta = run.path("meta-" + tag)
     cmd = ["tlc", "-workers", "1", "-metadir", meta, "-cleanup", "-noGenerateSpecTE",
            "-config", cfg, os.path.join(SPEC, module + ".tla")]
+    t_tv = time.time()
     p = subprocess.run(["timeout", str(timeout)] + cmd, cwd=SPEC,
                        env=_tlc_env({"TRACE": trace}, JAVA_TV + " -Xmx6g"),
                        stdout=subprocess.PIPE, stderr=subprocess.STDOUT, text=True)
     out = p.stdout
+    run.timing["tlc_trace"] = round(run.timing.get("tlc_trace", 0) + time.time() - t_tv, 1)
     shutil.rmtree(meta, ignore_errors=True)
     m = None
     for line in out.splitlines():
@@ -337,6 +342,7 @@ def finish(run, level, coverage, assumptions):
     coverage.setdefault("spec_drift_lines", run.drift)
     coverage.setdefault("notes", run.notes)
     coverage.setdefault("mc_runs", run.mc["runs"])
+    coverage.setdefault("timing_s", run.timing)
     ev = {"property_id": run.pid, "tier": run.tier, "seed": run.seed, "level": level,
           "coverage": coverage, "assumptions": assumptions, "wall_s": wall, "violations": nviol}
     os.makedirs(EVID, exist_ok=True)
